@@ -43,7 +43,13 @@ func (sr StatsReporter) Flush() error {
 	fmt.Fprintf(sr.output, "  Log file:           %s\n", sr.stats.LogFileName)
 	fmt.Fprintf(sr.output, "  Log records:        %d\n", sr.stats.LogRecordsCount)
 	fmt.Fprintf(sr.output, "  Today:              %s\n", sr.stats.Now.Format(sr.dateFormat))
-	fmt.Fprintf(sr.output, "  First record:       %s (%d days ago)\n", sr.stats.LogFirstRecord.Format(sr.dateFormat), int(sr.stats.Now.Sub(sr.stats.LogFirstRecord).Hours()/24))
-	fmt.Fprintf(sr.output, "  Last record:        %s (%d days ago)\n", sr.stats.LogLastRecord.Format(sr.dateFormat), int(sr.stats.Now.Sub(sr.stats.LogLastRecord).Hours()/24))
+	fmt.Fprintf(sr.output, "  First record:       %s (%d days ago)\n", sr.stats.LogFirstRecord.Format(sr.dateFormat), daysBetween(sr.stats.LogFirstRecord, sr.stats.Now))
+	fmt.Fprintf(sr.output, "  Last record:        %s (%d days ago)\n", sr.stats.LogLastRecord.Format(sr.dateFormat), daysBetween(sr.stats.LogLastRecord, sr.stats.Now))
 	return sr.output.Flush()
+}
+
+// daysBetween returns the number of whole days from t to now (negative when t is after now).
+// It counts in seconds: time.Duration cannot hold more than about 292 years.
+func daysBetween(t, now time.Time) int {
+	return int((now.Unix() - t.Unix()) / 86400)
 }
